@@ -135,11 +135,35 @@ def arm_wrap(stmts):
     raise Anchor("wrap arm of unknown shape: %s" % kinds)
 
 
+def flat(t):
+    return re.sub(r"\s+", "", re.sub(r"//[^\n]*", "", t))
+
+
+ADD_TAIL = "scratch_contour.points.push(ContourPoint::new(x,y,segment_type,smooth,name,identifier,));Ok(self)"
+END_TAIL = "if!scratch_contour.points.is_empty(){self.contours.push(scratch_contour);}Ok(self)"
+
+
+def nothing_else(what, text, allowed=""):
+    """a translator must never IGNORE a statement: everything around the translated shapes has to be exactly the known text"""
+    if flat(text) != allowed:
+        raise Anchor("%s: statements the translator does not know: %s" % (what, flat(text)[:80]))
+
+
 def generate():
     src = open(os.path.join(REPO, "src", "glyph", "builder.rs")).read()
     i = src.index("pub(crate) fn add_point(")
     j = src.index("match segment_type", i)
-    body, _ = block_after(src, j)
+    body, after_match = block_after(src, j)
+    # the arm `OutlineBuilderState::Drawing { .. } => { <nothing> match segment_type { .. } <push; Ok(self)> }`
+    pat = "OutlineBuilderState::Drawing { scratch_contour, number_of_offcurves } =>"
+    arm = src.index(pat, i)
+    if not arm < j:
+        raise Anchor("add_point: Drawing arm")
+    arm_body, _ = block_after(src, arm + len(pat))
+    k0 = arm_body.index("match segment_type")
+    nothing_else("add_point, before the match", arm_body[:k0])
+    _, k1 = block_after(arm_body, k0)
+    nothing_else("add_point, after the match", arm_body[k1:], ADD_TAIL)
     add_arms = {a: arm_addpoint(translate_stmts(t, False)) for a, t in split_arms(body)}
     k = src.index("pub(crate) fn end_path(")
     # outer test: `if number_of_offcurves > K { if scratch_contour.is_closed() { for ... } else { return Err(E); } }`
@@ -150,6 +174,25 @@ def generate():
     l = src.index("for point in &scratch_contour.points", k)
     lm = src.index("match point.typ", l)
     lbody, after = block_after(src, lm)
+    # nothing but the known shapes around them
+    epat = "OutlineBuilderState::Drawing { scratch_contour, mut number_of_offcurves } =>"
+    earm = src.index(epat, k)
+    earm_body, _ = block_after(src, earm + len(epat))
+    o0 = earm_body.index("if number_of_offcurves >")
+    nothing_else("end_path, before the trailing-off-curve test", earm_body[:o0])
+    obody, o1 = block_after(earm_body, o0)
+    nothing_else("end_path, after the trailing-off-curve test", earm_body[o1:], END_TAIL)
+    c0 = obody.index("if scratch_contour.is_closed()")
+    nothing_else("end_path, before the closed test", obody[:c0])
+    cbody, _ = block_after(obody, c0)
+    f0 = cbody.index("for point in &scratch_contour.points")
+    nothing_else("end_path, before the wrap loop", cbody[:f0])
+    fbody, f1 = block_after(cbody, f0)
+    nothing_else("end_path, after the wrap loop", cbody[f1:])
+    m0 = fbody.index("match point.typ")
+    nothing_else("wrap loop, before the match", fbody[:m0])
+    _, m1 = block_after(fbody, m0)
+    nothing_else("wrap loop, after the match", fbody[m1:])
     wrap_arms = {a: arm_wrap(translate_stmts(t, True)) for a, t in split_arms(lbody)}
     m2 = re.search(r"\}\s*else\s*\{\s*return Err\(ErrorKind::(\w+)\);\s*\}", src[after:after + 400])
     if not m2:
